@@ -17,7 +17,7 @@ NoRep == {}
 
 NameSets(z) == {AllToks} \cup (IF Big THEN {CounterToks, StackToks} \cup {{t} : t \in AllToks} ELSE {})
 NamesVecs(z) ==
-    {V("names", Cfg({Prog(P1, {V1}, {E(e, D) : e \in ce}, {E(e, D) : e \in se})}, 0), {File(1, B0, 1, ns)}, D \div 2) :
+    {V("names", Cfg({Prog(P1, {V1}, {E(e, D) : e \in ce}, {E(e, D) : e \in se})}, D), {File(1, B0, 1, ns)}, D \div 2) :
         ce \in UpTo2(CEntries), se \in (IF Big THEN UpTo2(SEntries) ELSE UpTo1(SEntries)), ns \in NameSets(0)}
 
 Rates == {0, D \div 4, (3 * D) \div 4, D}
@@ -26,11 +26,11 @@ RatesVecs(z) ==
     {V("rates", Cfg({Prog(P1, {V1}, {E("c", r1), E("c:{a,b}", r2)}, {E("s", r3)})}, sm),
        {File(1, B0, 1, {"c", "c:a", "c:b", "d", "s\nf1\nf2", "s2\nf1"})}, x) :
         r1 \in Rates, r2 \in Rates, r3 \in (IF Big THEN Rates ELSE {D \div 4, D}),
-        sm \in (IF Big THEN {0, D \div 2, D} ELSE {0, D \div 2}), x \in Xs}
+        sm \in (IF Big THEN {0, D \div 2, D} ELSE {D \div 2, D}), x \in Xs}
 
 (* the same name listed as a counter and as a stack, with different rates     *)
 SharedVecs(z) ==
-    {V("shared", Cfg({Prog(P1, {V1}, {E("s", r1), E("c", r2)}, {E("s", r3), E("c", r4)})}, 0),
+    {V("shared", Cfg({Prog(P1, {V1}, {E("s", r1), E("c", r2)}, {E("s", r3), E("c", r4)})}, D),
        {File(1, B0, 1, {"s", "c", "s\nf1\nf2", "c\nf1"})}, x) :
         r1 \in Rates, r2 \in {D \div 4, D}, r3 \in Rates, r4 \in {D \div 4, D}, x \in {1, D \div 2, D - 1}}
 
@@ -43,7 +43,7 @@ Dist(b, c) == (IF b.program = c.program THEN 0 ELSE 1) + (IF b.version = c.versi
               (IF b.gover = c.gover THEN 0 ELSE 1) + (IF b.goos = c.goos THEN 0 ELSE 1) + (IF b.goarch = c.goarch THEN 0 ELSE 1)
 NearBuilds(z) == {b \in Builds(0) : Dist(b, B0) <= 1 \/ Dist(b, B2) <= 1}
 BuildsCfg(x) == Cfg({Prog(P1, {V1, V2}, {E("c", D), E("c:{a,b}", D)}, {E("s", D)}),
-                     Prog(P2, {V2}, {E("d", D)}, {})}, 0)
+                     Prog(P2, {V2}, {E("d", D)}, {})}, D)
 BuildToks == {"c", "c:a", "d", "s\nf1\nf2"}
 BuildsVecs(z) ==
     {V("builds", BuildsCfg(0), {File(1, b, 1, BuildToks)} \cup extra, D \div 4) :
@@ -54,7 +54,7 @@ Kinds(z) == {[id |-> i * 1000 + w * 100 + cv * 10 + sv, build |-> (IF i = 1 THEN
            counts |-> (IF cv = 0 THEN {} ELSE {[n |-> "c", v |-> cv]}) \cup (IF sv = 0 THEN {} ELSE {[n |-> "s\nf1\nf2", v |-> sv]})] :
             i \in {1, 2}, w \in {1, 2}, cv \in {0, 1, 5}, sv \in {0, 1, 5}}
 Twice(k) == {k, [k EXCEPT !.id = k.id + 5000]}
-SumsCfg == Cfg({Prog(P1, {V1}, {E("c", D)}, {E("s", D)}), Prog(P2, {V2}, {E("c", D)}, {})}, 0)
+SumsCfg == Cfg({Prog(P1, {V1}, {E("c", D)}, {E("s", D)}), Prog(P2, {V2}, {E("c", D)}, {})}, D)
 FileSets(z) == {{a, b} : a, b \in Kinds(0)} \cup {Twice(k) : k \in Kinds(0)}
             \cup (IF Big THEN {Twice(a) \cup {b} : a, b \in Kinds(0)} \cup {{a, b, c} : a, b, c \in Kinds(0)} ELSE {})
 SumsVecs(z) == {V("sums", SumsCfg, fs, D \div 2) : fs \in {fs \in FileSets(0) : \E f \in fs : f.counts # {}}}
@@ -91,7 +91,7 @@ Out(v) ==
     IF IsSrv(v) THEN SrvOut(v) ELSE
     LET cfg == CCfg(v.cfg)  files == CFiles(v.files) IN
     [fam |-> v.fam, cfg |-> v.cfg, files |-> v.files, x |-> v.x, d |-> D,
-     sampled |-> Sampled(cfg, v.x),
+     mustsend |-> MustSend(cfg, v.x, D),
      weeks |-> {WeekOut(cfg, files, w, v.x) : w \in Weeks(v)},
      viewer |-> {[id |-> f.id,
                   setx |-> ViewerSetExcluded(cfg, f.build),
